@@ -150,6 +150,12 @@ ListsGrow(sh) ==
            (* the long jump is the last instruction *)
            [] sh.v = "last" -> {Opt(sh.s) \o <<Pad(1)>> \o Grows(g) \o <<Pad(n), J(sh.k, b + 1)>> : n \in (32767 - 3 * g)..(32768 - 2 * g)}
 
+(* which conditional a jump of kind "if" is does not matter to the layout, but ifnull / ifnonnull lie apart from the other   *)
+(* fourteen opcodes: n = 15 / 16 of a jump item asks the driver for them (n = 0: its own choice by position).  Every list of *)
+(* the grow family with an `if` is also drawn with its if being ifnull and ifnonnull.                                        *)
+NullIfs(L) == {[i \in DOMAIN L |-> IF L[i].k = "if" THEN [L[i] EXCEPT !.n = c] ELSE L[i]] : c \in {15, 16}}
+ListsGrowN(sh) == LET base == ListsGrow(sh) IN IF sh.k = "if" THEN base \cup UNION {NullIfs(L) : L \in base} ELSE base
+
 (* a grow inside the span of a short forward jump that also holds a second *)
 (* jump: J1 Grow Pad(n1) X Pad(n2) J2 End                                  *)
 ShapesGrow2 == {[f |-> "grow2", k1 |-> k1, k2 |-> k2, t2 |-> t2] : k1 \in JK, k2 \in JK, t2 \in {1, 4}}
@@ -169,7 +175,7 @@ Lists(sh) ==
       [] sh.f = "adj"  -> ListsAdj(sh)
       [] sh.f = "sw"   -> ListsSw(sh)
       [] sh.f = "lim"  -> ListsLim(sh)
-      [] sh.f = "grow" -> ListsGrow(sh)
+      [] sh.f = "grow" -> ListsGrowN(sh)
       [] sh.f = "grow2" -> ListsGrow2(sh)
 
 ---------------------------------------------------------------------------
